@@ -1112,9 +1112,9 @@ func c17Judge(r *ev.Run, m *dyn.Model, start, final *ref.DB, hist [][]*c17op, mo
 	for _, k := range keys {
 		key := k
 		model := porcupine.Model{
-			Init: func() interface{} { return c17Init(key) },
-			Step: c17Step,
-			Equal: func(a, b interface{}) bool { return reflect.DeepEqual(a, b) },
+			Init:              func() interface{} { return c17Init(key) },
+			Step:              c17Step,
+			Equal:             func(a, b interface{}) bool { return reflect.DeepEqual(a, b) },
 			DescribeOperation: func(in, out interface{}) string { return fmt.Sprintf("%+v -> %+v", in, out) },
 		}
 		res, info := porcupine.CheckOperationsVerbose(model, byKey[key], 60*time.Second)
